@@ -18,7 +18,7 @@ from tables import api                                           # noqa: E402
 import rules                                                     # noqa: E402
 from rules import registry                                       # noqa: E402
 
-EVID = os.path.join(HERE, 'evidence')
+EVID = os.environ.get('VERIF_EVIDENCE_DIR') or os.path.join(HERE, 'evidence')
 VIOL = os.path.join(EVID, 'violations')
 KNOWN = os.path.join(HERE, 'known_findings.json')
 
